@@ -9,6 +9,7 @@ from typing import Any, Dict, List, Tuple
 
 from harness.core import Component
 from harness.lib.c15_ttl import Clock
+from harness.lib.c15_vals import val_of, val_id, obs, obs_model, gen_val, P as NFALSY
 
 
 class DictCache:
@@ -51,21 +52,22 @@ class MergeComp(Component):
             words = [rng.randrange(2) for _ in range(nw)]
         workers = []
         agree = rng.random() < 0.3      # all workers agree on values (assert_equal passes)
+        agreed = [gen_val(rng, neq_only=True) for _ in range(nk)]
         for w in range(nw):
             keys = rng.sample(range(nk), rng.randrange(nk + 1))
-            workers.append({"ord": words[w], "items": [[k, (k * 7 + 1) if agree else rng.randrange(50)] for k in keys]})
+            workers.append({"ord": words[w], "items": [[k, agreed[k] if agree else gen_val(rng, neq_only=True)] for k in keys]})
         mode = rng.choice(["first_wins", "first_wins", "assert_equal"])
         target = rng.choice(["dict", "lru"])
         case: Dict[str, Any] = {"target": target, "mode": mode, "kord": kord, "workers": workers, "distinct": distinct,
                                 "perm": rng.sample(range(nw), nw), "shuffle_seed": rng.randrange(1 << 30)}
         npre = rng.choice([0, 0, 1, 2])
         if target == "dict":
-            case["pre"] = [[k, (k * 7 + 1) if agree else rng.randrange(50)] for k in rng.sample(range(nk), min(nk, npre))]
+            case["pre"] = [[k, agreed[k] if agree else gen_val(rng, neq_only=True)] for k in rng.sample(range(nk), min(nk, npre))]
         else:
             case["max"] = rng.choice([1, 2, 3, 5, 100])
             case["ttl"] = rng.choice([0, 0, 5])
             case["now"] = rng.choice([10, 14, 16, 30])
-            case["pre"] = [[rng.choice([0, 10, 12]), k, (k * 7 + 1) if agree else rng.randrange(50)]
+            case["pre"] = [[rng.choice([0, 10, 12]), k, agreed[k] if agree else gen_val(rng, neq_only=True)]
                            for k in rng.sample(range(nk), min(nk, npre))]
         return case
 
@@ -82,17 +84,17 @@ class MergeComp(Component):
         from clematis.engine.cache import merge_caches_deterministic, LRUCache
         clock = Clock()
         if case["target"] == "dict":
-            target: Any = DictCache(case["pre"])
+            target: Any = DictCache([(k, val_of(v)) for k, v in case["pre"]])
         else:
             target = LRUCache(max_entries=case["max"], ttl=case["ttl"], time_fn=clock)
             for t, k, v in case["pre"]:
                 clock.now = t
-                target.put(k, v)
+                target.put(k, val_of(v))
             clock.now = case["now"]
         wcs = []
         for i, w in enumerate(workers):
             wkey = f"w{w['ord']}:{i}"           # opaque worker handle; order key is looked up
-            wcs.append((wkey, DictCache(w["items"])))
+            wcs.append((wkey, DictCache([(k, val_of(v)) for k, v in w["items"]])))
         raised = False
         try:
             merge_caches_deterministic(target, wcs, worker_order_key=lambda wk: int(wk[1:].split(":")[0]),
@@ -100,11 +102,11 @@ class MergeComp(Component):
         except AssertionError:
             raised = True
         if case["target"] == "dict":
-            return {"raised": raised, "items": [list(kv) for kv in target.items()], "visited": list(target.visited)}
+            return {"raised": raised, "items": [[k, val_id(v)] for k, v in target.items()], "visited": list(target.visited)}
         st = target.stats
         d = target._ns._d
         return {"raised": raised, "s": {"keys": list(d.keys()), "ts": [int(e.ts) for e in d.values()],
-                                        "vals": [e.value for e in d.values()], "n": len(target),
+                                        "vals": [val_id(e.value) for e in d.values()], "n": len(target),
                                         "hits": st["hits"], "misses": st["misses"], "evicted": st["evicted"]}}
 
     def impl(self, case: dict) -> Any:
@@ -177,6 +179,8 @@ class MergeComp(Component):
             t.add("conflict")
         if not case["distinct"]:
             t.add("order_key_ties")
+        if any(0 <= v < NFALSY for w in case["workers"] for _, v in w["items"]):
+            t.add("falsy_values")
         if case["target"] == "lru" and b["s"]["evicted"]:
             t.add("target_evicts")
         if len(case["workers"]) > 1 and case["perm"] != sorted(case["perm"]):
@@ -217,7 +221,7 @@ class WrapSchedComp(Component):
                 for _ in range(rng.choice([1, 3, 6, 12])):
                     r = rng.random()
                     if r < 0.55:
-                        ops.append(["put", rng.randrange(nk), rng.randrange(1000), rng.choice([0, 1, 2, 4, 5, 11])])
+                        ops.append(["put", rng.randrange(nk), gen_val(rng), rng.choice([0, 1, 2, 4, 5, 11])])
                     elif r < 0.85:
                         ops.append(["get", rng.randrange(nk)])
                     else:
@@ -231,7 +235,7 @@ class WrapSchedComp(Component):
                 for _ in range(rng.choice([1, 3, 6, 12])):
                     r = rng.random()
                     if r < 0.5:
-                        ops.append(["set", 0, rng.randrange(nk), rng.randrange(1000)])
+                        ops.append(["set", 0, rng.randrange(nk), gen_val(rng)])
                     elif r < 0.8:
                         ops.append(["get", 0, rng.randrange(nk)])
                     elif r < 0.92:
@@ -265,7 +269,7 @@ class WrapSchedComp(Component):
         out = []
         if case["inner"] == "lrubytes":
             ev: List[list] = []
-            inner = LRUBytes(case["maxE"], case["maxB"], on_evict=lambda k, v, b: ev.append([k, v, b]))
+            inner = LRUBytes(case["maxE"], case["maxB"], on_evict=lambda k, v, b: ev.append([k, val_id(v), b]))
             w = ThreadSafeBytesCache(inner)
             for i in case["sched"]:
                 if not pools[i]:
@@ -273,17 +277,17 @@ class WrapSchedComp(Component):
                 op = pools[i].pop(0)
                 del ev[:]
                 if op[0] == "put":
-                    r = w.put(op[1], op[2], op[3])
+                    r = w.put(op[1], val_of(op[2]), op[3])     # value ids denote Python objects incl. None/0/""/False
                     o = {"r": list(r), "ev": [list(e) for e in ev]}
                 elif op[0] == "get":
-                    o = {"r": w.get(op[1])}
+                    o = {"r": obs(w.get(op[1]))}
                 else:
                     o = {"r": op[1] in w}
                 o["s"] = {"keys": list(inner.keys()), "bytes": inner.size_bytes(), "n": inner.size_entries()}
                 out.append(o)
             q = list(inner._q)
-            final = {"items": [[k, inner._map[k][0], inner._map[k][1]] if k in inner._map else [k, -1, -1] for k in q],
-                     "bytes": inner._bytes, "mapn": len(inner._map), "wrapper_items": [list(kv) for kv in w.items()]}
+            final = {"items": [[k, val_id(inner._map[k][0]), inner._map[k][1]] if k in inner._map else [k, -1, -1] for k in q],
+                     "bytes": inner._bytes, "mapn": len(inner._map), "wrapper_items": [[k, val_id(v)] for k, v in w.items()]}
         else:
             clock = Clock()
             inner = LRUCache(max_entries=case["max"], ttl=case["ttl"], time_fn=clock)
@@ -294,29 +298,36 @@ class WrapSchedComp(Component):
                 op = pools[i].pop(0)
                 clock.now = op[1]
                 if op[0] == "set":
-                    r = w.put(op[2], op[3])
+                    r = w.put(op[2], val_of(op[3]))
                 elif op[0] == "get":
-                    r = w.get(op[2])
+                    r = obs(w.get(op[2]))
                 elif op[0] == "contains":
                     r = op[2] in w
                 else:
-                    r = [list(kv) for kv in w.items()]
+                    r = [[k, val_id(v)] for k, v in w.items()]
                 st = inner.stats
                 d = inner._ns._d
                 out.append({"r": r, "s": {"keys": list(d.keys()), "ts": [int(e.ts) for e in d.values()],
-                                          "vals": [e.value for e in d.values()], "n": len(inner),
+                                          "vals": [val_id(e.value) for e in d.values()], "n": len(inner),
                                           "hits": st["hits"], "misses": st["misses"], "evicted": st["evicted"]}})
             d = inner._ns._d
-            final = {"items": [[k, int(e.ts), e.value] for k, e in d.items()]}
+            final = {"items": [[k, int(e.ts), val_id(e.value)] for k, e in d.items()]}
         return {"complete": all(not p for p in pools), "out": out, "final": final}
 
     def compare(self, case, impl_out, model_out):
         if isinstance(impl_out, dict) and "final" in impl_out:
             impl_out = {"complete": impl_out["complete"], "out": impl_out["out"]}
         if isinstance(model_out, dict) and isinstance(model_out.get("out"), list):
-            for o in model_out["out"]:
+            pools = [list(t) for t in case["threads"]]
+            merged = []
+            for i in case["sched"]:
+                if 0 <= i < len(pools) and pools[i]:
+                    merged.append(pools[i].pop(0))
+            for op, o in zip(merged, model_out["out"]):
                 if isinstance(o.get("s"), dict):
                     o["s"].pop("inv", None)
+                if op[0] == "get":
+                    o["r"] = obs_model(o.get("r"))       # get() returns a stored None as None
         return super().compare(case, impl_out, model_out)
 
     def monitor_requests(self, case, impl_out):
@@ -410,8 +421,8 @@ def thread_stress(ctx, rounds: int) -> dict:
                 try:
                     for is_put, k, v, c in plan:
                         if is_put:
-                            w.put(k, (tid, v), c)
-                            wl.put(k, v)
+                            w.put(k, (tid, v) if v % 5 else None, c)     # stored None / falsy values too
+                            wl.put(k, v if v % 7 else (None if v % 2 else 0))
                         else:
                             w.get(k)
                             wl.get(k)
